@@ -131,4 +131,18 @@ PROPS = {
         "require_counters": ["full_iterations", "masked_iterations", "masks_selecting_proper_subset", "cardinalities", "graph_counts"],
         "assumptions": ASSUME_COMMON,
     },
+    "C15": {
+        "rule": ("each case: random domain (<=1024 points), boolean source forest (fully or quasi reduced, random policies), index-set "
+                 "forest with random policies, 1-5 sets incl. empty, full, singleton and random; CONVERT_TO_INDEX_SET result evaluated at "
+                 "every point against rank-in-lexicographic-order / +infinity; getElement(i) for all (up to 60) valid indexes must "
+                 "return the i-th member and must return false for -1, -2, n, n+1, n+7, 2n+3, +-10^6, 2^31-1; stored cardinality of "
+                 "the root and (audit M1) of every index-set node equals the member count below it; repeated conversion gives the "
+                 "identical edge.  non-trivial = a set with more than one member that is not the full set; distinct = hash(shape, rule, sets)"),
+        "passes": {
+            "quick": [P("main", "asan", 1500)],
+            "thorough": [P("main", "asan", 40000)],
+        },
+        "require_counters": ["conversions", "lookups_in_range", "lookups_out_of_range", "empty_sets", "full_sets", "audit_index_cardinalities"],
+        "assumptions": ASSUME_COMMON,
+    },
 }
